@@ -265,6 +265,8 @@ class FnFx:
                     o = self.payload_owner(recv)
                     if o is None and self._other_class_local(recv):
                         continue  # a method of the same name on an object of another repository class
+                    if o is None and isinstance(recv, ast.Name) and self._is_payload_local(recv.id) and self.fx.prog.is_new_function(fi):
+                        continue  # a payload built here and not yet in any tree (a helper newer than the rules that fills a graph it is handed)
                     if o is None:
                         raise AnalysisError("%s: cannot tell which tree owns the payload in %s" % (fi.qualname, u(n)))
                     evs.append(Ev("LW", o, n, "payload " + ln))
